@@ -13,6 +13,7 @@ import CssVerif.Driver.SelOps
 import CssVerif.Driver.UptoOps
 import CssVerif.Driver.ImportOps
 import CssVerif.Driver.LinkOps
+import CssVerif.Driver.UrlOps
 open CssVerif CssVerif.Proto
 
 def showTok (t : Tok) : String :=
@@ -60,6 +61,8 @@ def step (line : String) : String :=
   | ["urlpath", b, r] => ImportOps.opUrlPath b r
   | ["rfcpath", m] => ImportOps.opRfcPath m
   | ["tree", fx, n, hist] => LinkOps.run fx n hist
+  | ["urlrt", u] => UrlOps.opUrlRt u
+  | ["urltrav", t] => UrlOps.opUrlTrav t
   | ["sel", ns, hex] => SelOps.opSel ns hex
   | ["num", fx, om, hex] => NumOps.opNum fx om hex
   | ["numval", hex] => NumOps.opVal hex
